@@ -43,6 +43,18 @@ def tie(rep, tier, rng, model_ok):
     benches = [simgen.gen_fault(rng) for _ in range(n)] + [simgen.gen_deadlock(rng) for _ in range(n)] + \
               [simgen.gen_net(rng, hier=True) for _ in range(n)] + [simgen.gen_sched(rng) for _ in range(n)] + \
               [simgen.gen_nested(rng) for _ in range(n)] + [simgen.gen_reply_unread(rng) for _ in range(max(20, n // 4))]
+    # a failed step with another worker still busy, then the drop (multi-threaded executor only)
+    busy = [simgen.gen_fail_while_busy(rng) for _ in range(12 if q else 120)]
+    d2, o2, lm2, mo2, res2 = simcheck.compare_cases(rep, "drop-after-failure-with-a-busy-worker", busy, model_ok, thread_counts=(2, 4),
+                                                    oracles=(oracles.o_harness,), nontrivial=lambda c, o: True)
+    simcheck.report(rep, "drop-after-failure-with-a-busy-worker", busy, d2, o2, lm2, mo2, res2)
+    for th, outs in res2.items():
+        for c, line in zip(busy, outs):
+            e = o_drop(c, line)
+            if e:
+                rep.violation("drop-oracle-busy", {"kind": "property-violated-on-implementation", "threads": th, "why": e,
+                                                   "case": simcase.render(c, bugs=simcheck.current_bugs(), threads=th), "observed": line[:1500]})
+                break
     dis, orc, lm, mo, res = simcheck.compare_cases(rep, "drop-after-bench", benches, model_ok, thread_counts=(1, 4) if q else (1, 2, 4, 16),
                                                    oracles=(oracles.o_harness,), nontrivial=lambda c, o: True)
     simcheck.report(rep, "drop-after-bench", benches, dis, orc, lm, mo, res)
